@@ -164,7 +164,7 @@ def check_fn(ctx, f, sp):
     def visit_expr(e, st):
         for n in ast.walk(e):
             if isinstance(n, ast.Call):
-                calls.append((n, dict(st["nonnull"]), st["data_null"]))
+                calls.append((n, dict(st["nonnull"]), st["data_null"], dict(st.get("assigned", {}))))
 
     def run_block(stmts, st):
         for s in stmts:
@@ -214,7 +214,7 @@ def check_fn(ctx, f, sp):
     run_block(fn.body, state)
     # calls: only the optional callables, json defaults and the native function
     native_calls = []
-    for c, nonnull, data_null in calls:
+    for c, nonnull, data_null, assigned_at in calls:
         callee = c.func
         if isinstance(callee, ast.Name) and callee.id in sp["callables"]:
             p = callee.id
@@ -227,7 +227,7 @@ def check_fn(ctx, f, sp):
                 good = isinstance(d, ast.Attribute) and is_name(d.value, f.json) and d.attr == want
                 ctx.check(good, "K1.default-is-json", "%s: %s defaults to json.%s" % (name, p, want), "%s defaults to %s" % (p, src_name(d)), where=w(c), fn=name, nontrivial=True)
         elif isinstance(callee, ast.Name) and callee.id == f.native:
-            native_calls.append((c, nonnull, data_null))
+            native_calls.append((c, nonnull, data_null, assigned_at))
         elif isinstance(callee, ast.Attribute) and is_name(callee.value, f.json) and callee.attr in ("dumps", "loads"):
             pass
         else:
@@ -235,11 +235,14 @@ def check_fn(ctx, f, sp):
     ctx.check(len(native_calls) == 1, "K1.native-once", "%s calls the native apply exactly once" % name, "%d calls of the native function" % len(native_calls), where=f.where, fn=name, nontrivial=True)
     if len(native_calls) != 1:
         return
-    c, nonnull, data_null = native_calls[0]
+    c, nonnull, data_null, assigned_at = native_calls[0]
     ctx.check(len(c.args) == 2 and not c.keywords, "K1.native-args", "%s passes two positional arguments" % name, "native call: %s" % src_name(c), where=w(c), fn=name)
     if len(c.args) != 2:
         return
     a0, a1 = c.args
+    # a local that holds an argument (`encoded = serializer(value)`) stands for the expression it was assigned
+    a0 = assigned_at.get(a0.id, a0) if isinstance(a0, ast.Name) and a0.id not in f.params else a0
+    a1 = assigned_at.get(a1.id, a1) if isinstance(a1, ast.Name) and a1.id not in f.params else a1
     if sp["args"] == "serialized":
         g0 = isinstance(a0, ast.Call) and is_name(a0.func, "serializer") and len(a0.args) == 1 and is_name(a0.args[0], "value") and not a0.keywords
         g1 = isinstance(a1, ast.Call) and is_name(a1.func, "serializer") and len(a1.args) == 1 and is_name(a1.args[0], "data") and not a1.keywords
